@@ -14,6 +14,7 @@ func RequiredArguments() Rule {
 		}
 		walker.RegisterEnterDocumentVisitor(&visitor)
 		walker.RegisterEnterFieldVisitor(&visitor)
+		walker.RegisterEnterDirectiveVisitor(&visitor)
 	}
 }
 
@@ -48,6 +49,31 @@ func (r *requiredArgumentsVisitor) EnterField(ref int) {
 
 		if r.operation.ArgumentValue(argument).Kind == ast.ValueKindNull {
 			r.StopWithExternalErr(operationreport.ErrArgumentOnFieldMustNotBeNull(name, fieldName))
+			return
+		}
+	}
+}
+
+func (r *requiredArgumentsVisitor) EnterDirective(ref int) {
+	directiveName := r.operation.DirectiveNameBytes(ref)
+	definitionRef, exists := r.definition.DirectiveDefinitionByNameBytes(directiveName)
+	if !exists {
+		// unknown directives are reported by DirectivesAreDefined
+		return
+	}
+	if !r.definition.DirectiveDefinitions[definitionRef].HasArgumentsDefinitions {
+		return
+	}
+
+	for _, i := range r.definition.DirectiveDefinitions[definitionRef].ArgumentsDefinition.Refs {
+		if r.definition.InputValueDefinitionArgumentIsOptional(i) {
+			continue
+		}
+
+		name := r.definition.InputValueDefinitionNameBytes(i)
+
+		if _, exists := r.operation.DirectiveArgumentValueByName(ref, name); !exists {
+			r.StopWithExternalErr(operationreport.ErrArgumentRequiredOnDirective(name, directiveName))
 			return
 		}
 	}
